@@ -368,7 +368,7 @@ fn window_move_front_to_back() {
 /// unlink_and_drop: the neighbours are joined as by unlink and the node's allocation is released exactly once (CBMC's
 /// deallocation checks are on: a second release by this harness would be a double free, none happens)
 #[kani::proof]
-fn window_unlink_and_drop() {
+fn window_drop_unlinked() {
     let has_p: bool = kani::any();
     let has_n: bool = kani::any();
     let p = raw(1);
